@@ -19,7 +19,7 @@ from vlib.model import *  # noqa
 from vlib.refcodec import put_uvarint
 
 LEVEL = "fault_enumeration"
-FLOOR = {"quick": 600, "thorough": 8000}
+FLOOR = {"quick": 600, "thorough": 4000}
 
 
 def neighbour_package():
@@ -134,7 +134,7 @@ def run(ctx):
     eps = [rt.CppEndpoint(m, "plain"), rt.CppEndpoint(m, "asan"), rt.PyEndpoint(m)]
     others = [p for p in pkg.protocols() if p.name != "NbA"]
     jobs = []
-    for k in range(3 if quick else 10):
+    for k in range(3 if quick else 30):
         valsA = vgA.steps(A, stream_len=[0, 2, 5][k % 3])
         binA = c.encode_stream(A, m.schema("NbA"), valsA)
         ndA = ("\n".join(c.ndjson_lines(A, m.schema("NbA"), valsA)) + "\n").encode()
@@ -239,7 +239,7 @@ def run(ctx):
                 refused(ctx, m2, r, ep.name, "ndjson", "unrelated: reader %s fed a stream of %s (%s)" % (b.name, a.name, key), {"class": "unrelated", "key": key})
                 ctx.case((key, a.name, b.name))
         m2.close()
-    pmap(corpus_pairs, corpus.ser_keys(4 if quick else 40, "u"), workers=4)
+    pmap(corpus_pairs, corpus.ser_keys(4 if quick else 120, "u"), workers=4)
     ctx.sample({"neighbours": [p.name for p in others], "header_bytes": hdr_len, "schema_offset": schema_off})
     ctx.sample({"ndjson_header_variants": list(variants)})
     cxx.prune_cache()
